@@ -24,14 +24,18 @@ theorem C06_same_plan (env : Env) (root : Msg) (e : Expr) (part : Nat) (m : Msg)
   Proofs.eval_dryrun_same env root e part m st
 
 /-- The `-> destination` lines are, in order, exactly the action entries `matches_exec` iterates over. -/
-theorem C06_lines_are_actions (width : Bytes → Nat) (home confpath : Bytes) (stdinMode : Bool) (path : Bytes) (ml : MatchList) :
+theorem C06_lines_are_actions (width : Bytes → Nat → Nat) (home confpath : Bytes) (stdinMode : Bool) (path : Bytes) (ml : MatchList) :
     matchesInspect width home confpath stdinMode false path ml = (Proofs.destLines stdinMode path ml).flatten :=
   Proofs.inspect_lines_are_actions width home confpath stdinMode path ml
 
 /-- Marker columns (see `Proofs.marker_columns` for the exact statement): `^` under the first and `$`
-under the last matched character of the quoted line, for every additive width function, whenever the
-match does not begin inside the leading blanks of its line (the complement is known finding F15). -/
-theorem C06_marker_columns (width : Bytes → Nat) (hw : Proofs.Additive width) (home confpath : Bytes) (mh : Match) (key val : Bytes)
+under the last matched character of the quoted line, for EVERY width function (`width str len` stands for
+`strnwidth(str, len)`; no additivity is needed), whenever the match does not begin inside the leading blanks of
+its line (the complement is known finding F15).  The blanks before `^` are `inspectHeadWidth` - the head
+`conf:lno: key: ` with the configuration path and the header name measured by `width` and the punctuation in bytes
+(fix 951a0f1) - plus the width of the quoted text before the match; `C06_marker_display_columns` turns that into
+display columns of the printed line for `strnwidth` over any `mbtowc`/`wcwidth`. -/
+theorem C06_marker_columns (width : Bytes → Nat → Nat) (home confpath : Bytes) (mh : Match) (key val : Bytes)
     (beg end_ : Nat) (s : Bytes)
     (hins : mh.ty.isInspect = true) (hk : mh.key = some key) (hv : mh.val = some val)
     (hsub : mh.subs = [{ str := s, off := some (beg, end_) }])
@@ -41,12 +45,65 @@ theorem C06_marker_columns (width : Bytes → Nat) (hw : Proofs.Additive width) 
     let lstart := (Proofs.lineOf val beg).2
     let shown := line.drop (nspaces line)
     let pre := inspectPrefix home confpath mh.lno ++ key ++ [58, 32]
-    let w := width ((val.drop beg).take (end_ - beg))
+    let w := width (val.drop beg) (end_ - beg)
     exprInspect width home confpath mh =
       pre ++ shown ++ [10] ++
-      spaces (pre.length + width ((val.drop (lstart + nspaces line)).take (beg - (lstart + nspaces line)))) ++ [94] ++
+      spaces (inspectHeadWidth width home confpath mh.lno key +
+        width (val.drop (lstart + nspaces line)) (beg - (lstart + nspaces line))) ++ [94] ++
       spaces (w - 2) ++ [36, 10] :=
-  Proofs.marker_columns width hw home confpath mh key val beg end_ s hins hk hv hsub hne hle hnl hlead
+  Proofs.marker_columns width home confpath mh key val beg end_ s hins hk hv hsub hne hle hnl hlead
+
+/-- **Marker columns as display columns, for multibyte text everywhere on the line.**  `width = strnwidth mb wcw` is the loop
+of expr.c over ANY `mbtowc`/`wcwidth` (any locale; characters of several bytes, of two columns, of no column, invalid
+sequences - in the value, in the configuration path and in the header name).  Hypotheses about the text: the path (after the `~`
+substitution) and the header name are texts of whole characters (`Proofs.Chars`: each character is decoded the same whatever
+follows the text - true of well-formed text under `mbtowc`; a path ending inside a multibyte sequence is excluded); about
+the locale: the punctuation `~`, `:lno: `, `: ` consists of one-byte one-column characters (`Proofs.OneColumn`; ASCII).
+NO hypothesis that the path or the name is ASCII (before fix 951a0f1 that was needed and its absence refuted).
+Then the number of blanks before `^` is the display width of everything printed on the quoted line before the first
+matched byte (`strnwidth` of the first `|head| + (beg - lbeg)` bytes of the printed line in the context of the value), and
+`$` follows `width(match) - 2` blanks later, i.e. in the last column of the match when the match has at least two columns. -/
+theorem C06_marker_display_columns (mb : Bytes → Option (Nat × Nat)) (wcw : Nat → Int) (home confpath : Bytes) (mh : Match)
+    (key val : Bytes) (beg end_ : Nat) (s : Bytes)
+    (hins : mh.ty.isInspect = true) (hk : mh.key = some key) (hv : mh.val = some val)
+    (hsub : mh.subs = [{ str := s, off := some (beg, end_) }])
+    (hne : beg < end_) (hle : end_ ≤ val.length) (hnl : val[beg]? ≠ some 10)
+    (hlead : (Proofs.lineOf val beg).2 + nspaces (Proofs.lineOf val beg).1 ≤ beg)
+    (hpunct : ∀ c ∈ (inspectPath home confpath).1 ++ inspectLno mh.lno ++ [58, 32], Proofs.OneColumn mb wcw c)
+    (hpath : Proofs.Chars mb (inspectPath home confpath).2) (hkey : Proofs.Chars mb key) :
+    let line := (Proofs.lineOf val beg).1
+    let lstart := (Proofs.lineOf val beg).2
+    let shown := line.drop (nspaces line)
+    let pre := inspectPrefix home confpath mh.lno ++ key ++ [58, 32]
+    let w := strnwidth mb wcw (val.drop beg) (end_ - beg)
+    exprInspect (strnwidth mb wcw) home confpath mh =
+      pre ++ shown ++ [10] ++
+      spaces (strnwidth mb wcw (pre ++ val.drop (lstart + nspaces line)) (pre.length + (beg - (lstart + nspaces line)))) ++ [94] ++
+      spaces (w - 2) ++ [36, 10] :=
+  Proofs.marker_display_columns mb wcw home confpath mh key val beg end_ s hins hk hv hsub hne hle hnl hlead hpunct hpath hkey
+
+/-- Non-vacuity with a non-ASCII configuration path AND header name (`Proofs.markerWit`: U+4E2D = 3 bytes / 2 columns,
+U+00E9 = 2 bytes / 1 column, U+0301 = 2 bytes / no column): HOME `/h`, configuration `/h/dé中/c`, header `Sé`, value
+`中é hi` U+0301 `!`, the pattern matched `hi` U+0301 (bytes 6..10).  The head `~/dé中/c:2: Sé: ` has 19 bytes and 16
+columns, `中é ` four columns: `^` after 20 blanks (the code before fix 951a0f1 printed 23), `$` directly after it (the match
+has two columns). -/
+example : exprInspect (strnwidth Proofs.markerWit.mb Proofs.markerWit.wcw) [47, 104]
+      [47, 104, 47, 100, 0xC3, 0xA9, 0xE4, 0xB8, 0xAD, 47, 99] (Proofs.markerWit.entry [83, 0xC3, 0xA9]) =
+    [126, 47, 100, 0xC3, 0xA9, 0xE4, 0xB8, 0xAD, 47, 99, 58, 50, 58, 32, 83, 0xC3, 0xA9, 58, 32] ++ Proofs.markerWit.val ++ [10] ++
+      spaces 20 ++ [94, 36, 10] := by decide +kernel
+
+/-- ... and all hypotheses of the theorem hold there. -/
+example := C06_marker_display_columns Proofs.markerWit.mb Proofs.markerWit.wcw [47, 104]
+    [47, 104, 47, 100, 0xC3, 0xA9, 0xE4, 0xB8, 0xAD, 47, 99] (Proofs.markerWit.entry [83, 0xC3, 0xA9])
+    [83, 0xC3, 0xA9] Proofs.markerWit.val 6 10 [104, 105, 0xCC, 0x81] rfl rfl rfl rfl (by decide) (by decide) (by decide) (by decide)
+    (Proofs.markerWit.oneColumn _ (by decide +kernel))
+    (Proofs.markerWit.charsAscii [47, 100] (by decide) _ (Proofs.markerWit.charsE9 _ (Proofs.markerWit.chars4E2D _
+      (Proofs.markerWit.charsAscii [47, 99] (by decide) [] .nil))))
+    (Proofs.markerWit.charsAscii [83] (by decide) _ (Proofs.markerWit.charsE9 [] .nil))
+
+/-- The plain case: ASCII head `~/c:2: S: ` (10 columns), `^` after 14 blanks. -/
+example : exprInspect (strnwidth Proofs.markerWit.mb Proofs.markerWit.wcw) [47, 104] [47, 104, 47, 99] (Proofs.markerWit.entry [83]) =
+    [126, 47, 99, 58, 50, 58, 32, 83, 58, 32] ++ Proofs.markerWit.val ++ [10] ++ spaces 14 ++ [94, 36, 10] := by decide +kernel
 
 /-- **The explanations printed by a dry run are true** (all definitions in `Proofs/InspectTrue.lean`).
 For every match list, width function, home, configuration path and message path: the text
@@ -60,7 +117,7 @@ an INSPECT entry prints exactly one block per sub-match that is set and non-empt
 order, each block (`ExplainsSub`) quoting a line of the value the pattern was applied to (a maximal
 newline-free segment `IsLineAt`, leading blanks dropped) - the line the sub-match begins in whenever it
 begins at a byte of the value other than a newline - with `$` placed `width(match) - 2` columns after `^`. -/
-theorem C06_explanations_true (width : Bytes → Nat) (home confpath : Bytes) (stdinMode : Bool) (path : Bytes)
+theorem C06_explanations_true (width : Bytes → Nat → Nat) (home confpath : Bytes) (stdinMode : Bool) (path : Bytes)
     (ml : MatchList) :
     ∃ (groups : List Proofs.Explained) (tail : MatchList),
       ml = groups.flatMap (fun g => g.entries ++ [g.action]) ++ tail ∧
@@ -95,7 +152,7 @@ theorem C06_explanations_subject (env : Env) (ty : MType) (lno part : Nat) (p : 
 rule of that action", i.e. no `match` sentinel stands between a printing entry and the action it is
 printed under (`Proofs.ExplainedInActionRule`) - for every evaluation.  It is FALSE: -/
 def C06_explanations_same_rule : Prop :=
-  ∀ (width : Bytes → Nat) (home confpath : Bytes) (env : Env) (root : Msg) (e : Expr) (m : Msg) (f : MFlags),
+  ∀ (width : Bytes → Nat → Nat) (home confpath : Bytes) (env : Env) (root : Msg) (e : Expr) (m : Msg) (f : MFlags),
     Proofs.ExplainedInActionRule width home confpath (eval env root e 0 m { ml := [], flags := f }).2.ml
 
 /-- ... a rule whose first condition matches and whose second does not leaves the entry of the first
@@ -104,7 +161,7 @@ condition in the list, and `-d` prints it under the action of the next rule that
 `match date access > 10 seconds move "/d2"`; same with header and body conditions on the real binary). -/
 theorem C06_explanations_same_rule_false : ¬ C06_explanations_same_rule :=
   fun h => Proofs.explainedInActionRule_false
-    (h widthC [47, 104] [99, 111, 110, 102] Proofs.InspWit.env Proofs.InspWit.msg Proofs.InspWit.tree Proofs.InspWit.msg
+    (h widthCn [47, 104] [99, 111, 110, 102] Proofs.InspWit.env Proofs.InspWit.msg Proofs.InspWit.tree Proofs.InspWit.msg
       MFlags.empty)
 
 /-! Non-vacuity: the groups of the witness list; a line of a three-line value; skipped sub-matches. -/
